@@ -118,6 +118,10 @@ pub fn run(tier: Tier, seed: u64) -> i32 {
                 m1s.push(m);
             }
             for m1 in m1s {
+                if !taken_as_is(Pinned::ServerKey, &b) {
+                    NOT_OWNED.fetch_add(1, Ordering::Relaxed);
+                    continue;
+                }
                 let mut script = b.to_vec();
                 script.extend_from_slice(&[0x77; 16]);
                 let (r, _, _) = with_script(&script, || {
@@ -262,6 +266,10 @@ pub fn run(tier: Tier, seed: u64) -> i32 {
                 m2s.push(m);
             }
             for m2 in m2s {
+                if !taken_as_is(Pinned::ClientKey, &a) {
+                    NOT_OWNED.fetch_add(1, Ordering::Relaxed);
+                    continue;
+                }
                 let (r, _, _) = with_script(&a, || {
                     let c = SrpClientChallenge::new(ns(user), ns(pass), GENERATOR, LARGE_SAFE_PRIME_LITTLE_ENDIAN, bk, salt);
                     let (ap, m1) = (*c.client_public_key(), *c.client_proof());
@@ -614,6 +622,7 @@ pub fn run(tier: Tier, seed: u64) -> i32 {
         report.space("more than 2^32 bytes through the decrypter of every module on one connection (thorough)");
     }
     report.count("header_calls", hdr_calls);
+    report.count("cases_skipped_because_the_library_draws_again_for_a_degenerate_scripted_value", NOT_OWNED.load(Ordering::Relaxed));
 
     let total = calls.load(Ordering::Relaxed) + ccalls.load(Ordering::Relaxed) + seam + shape_calls + world + hdr_calls + r.transitions;
     report.count("server_accepted", accepted.load(Ordering::Relaxed));
